@@ -385,7 +385,7 @@ func (fr *Frame) enterLoop(li *loopInfo, st *State, phis []*ssa.Phi, phiVal func
 	if li.lc != nil {
 		fr.override = entryVals
 		for _, c := range li.lc.Axioms {
-			vc.assume(st.guard, fr.evalClause(c, st, li))
+			vc.assume(st.guard, fr.evalAssume(c, st, li))
 		}
 		fr.override = nil
 	}
@@ -427,7 +427,7 @@ func (fr *Frame) enterLoop(li *loopInfo, st *State, phis []*ssa.Phi, phiVal func
 		vc.assume(st.guard, vc.ptrFacts(st, p.Type(), fr.env[p], 0))
 	}
 	for _, c := range invs {
-		g := fr.evalClause(c, st, li)
+		g := fr.evalAssume(c, st, li)
 		vc.assume(st.guard, g)
 	}
 	return true
@@ -704,6 +704,14 @@ func (fr *Frame) lookupName(name string) (nameCand, bool) {
 	if len(cands) == 0 {
 		return nameCand{}, false
 	}
+	// a variable that lives in memory (address-taken local) is always read through its cell
+	for i := range cands {
+		if a, ok := cands[i].val.(*ssa.Alloc); ok && cands[i].addr {
+			if _, ok := fr.env[a]; ok {
+				return cands[i], true
+			}
+		}
+	}
 	// prefer: header phi of the current block; else last candidate whose definition dominates the current block
 	var best *nameCand
 	for i := range cands {
@@ -928,6 +936,12 @@ func (fr *Frame) step(ins ssa.Instruction, st *State, edges map[edgeKey]*State) 
 		return true
 	case *ssa.Range:
 		fr.env[x] = fr.val(x.X)
+		if mt, ok := x.X.Type().Underlying().(*types.Map); ok {
+			// a new iteration starts: nothing visited yet
+			vk := "ITER:" + fr.fn.String() + ":" + x.Name()
+			vs := "(Array " + vc.sortOf(mt.Key()) + " Bool)"
+			vc.setComp(st, vk, vs, app("(as const "+vs+")", tFalse))
+		}
 		return true
 	case *ssa.Next:
 		fr.nextOp(x, st)
